@@ -92,6 +92,12 @@ def templates(tier, seed):
                                        (arr, strict, ordered, N, {}), twin="verdict" if arr in (["a", "b"], ["b", "a"]) and not ordered else None))
         for rd in ("all", "exclude_first", "exclude_last"):
             ts.append(Template(f"T2/joint_unique/rd={rd}/N={N}", t_frame, (["a", "b"], False, False, N, {"unique": ["a", "b"], "report_duplicates": rd}), twin="verdict"))
+        for tag, sets in (("ax+ab", [["a", "x"], ["a", "b"]]), ("ab+ax", [["a", "b"], ["a", "x"]]), ("b+ax+a", [["b"], ["a", "x"], ["a"]])):
+            for lazy in (False, True):  # several jointly unique sets: each of them must hold, whatever its position in the list
+                if tier == "quick" and (tag, lazy) not in (("ax+ab", False), ("ab+ax", True), ("b+ax+a", False)):
+                    continue
+                ts.append(Template(f"T2/joint_unique_sets/{tag}/lazy={int(lazy)}/N={N}", t_frame,
+                                   (["a", "b", "x"], False, False, N, {"unique": sets, "lazy": lazy}), twin="verdict"))
         # T3 regex columns: prefix-match vs search vs fullmatch semantics differ on these labels
         for pattern in ("a[0-9]", "^a[0-9]$"):
             for arr in (["a1", "a2", "b"], ["a1", "ba3", "b"], ["ba3", "b"], ["b", "a2"]):
@@ -109,7 +115,7 @@ def templates(tier, seed):
             ts.append(Template(f"T4/frame_index/rd={rd}/N={N}", t_index, ("frame_index", N, dict(rd=rd))))
         for iname, sname in (("i", "i"), ("i", "j"), (None, "j"), ("i", None)):
             ts.append(Template(f"T4/frame_index/name={iname}-{sname}/N={N}", t_index, ("frame_index", N, dict(index_name=iname, schema_index_name=sname))))
-        for shape in ("rowwise", "scalar", "element_wise", "two_checks", "groupby"):
+        for shape in ("rowwise", "scalar", "element_wise", "two_checks", "groupby", "frame_builtin"):
             if shape == "groupby" and N < 1:
                 continue
             for lazy in (False, True):
